@@ -312,6 +312,29 @@ theorem loop_k_le {α : Type} [Add α] [Sub α] [Mul α] [OfScientific α] [OfNa
       rw [hk] at this; omega
     · rw [loop_succ_stop _ _ _ _ _ hst]; show (iter abs nocc s).k ≤ _; rw [hk]; omega
 
+/-- if the stopping rule was never met, all the fuel was used -/
+theorem loop_false_k {α : Type} [Add α] [Sub α] [Mul α] [OfScientific α] [OfNat α 0] [LT α]
+    [DecidableLT α] (abs : α → α) (eps nocc : α) :
+    ∀ (fuel : Nat) (s : St α), (loop abs eps nocc fuel s).2 = false →
+      (loop abs eps nocc fuel s).1.k = s.k + fuel := by
+  intro fuel
+  induction fuel with
+  | zero => intro s _; rfl
+  | succ fuel ih =>
+    intro s h
+    have hk : (iter abs nocc s).k = s.k + 1 := rfl
+    cases hst : stop eps (iter abs nocc s)
+    · rw [loop_succ_cont _ _ _ _ _ hst] at h ⊢
+      rw [ih _ h, hk]; omega
+    · rw [loop_succ_stop _ _ _ _ _ hst] at h; cases h
+
+/-- an occupation that is exactly `0` (a padding orbital after the `hN` shift) stays `0` -/
+theorem step_zero (nocc : ℝ) (xs : List ℝ) (i : Nat) (h : xs.getD i 0 = 0) :
+    (step rabs nocc xs).getD i 0 = 0 := by
+  rcases step_cases nocc xs with e | e <;> rw [e]
+  · rw [getD_map_sq, h, sq_zero]
+  · rw [getD_map_ex, h, ex_zero]
+
 theorem clampEps_le (eps : ℝ) : clampEps eps ≤ 1/1000 := by
   unfold clampEps
   split_ifs with h1 h2 <;> norm_num at * <;> linarith
